@@ -422,7 +422,11 @@ def add_mime_diff(key, avalue, bvalue, diffbuilder):
     mimetype = key.lower()
     if isinstance(avalue, str) and isinstance(bvalue, str) and avalue == bvalue:
         return
-    if any(mimetype.startswith(tm) for tm in _split_mimes):
+    # Only recurse when both values are of the same diffable kind, e.g.
+    # application/json data can be any json value, including bare numbers
+    recurse = any(
+        isinstance(avalue, t) and isinstance(bvalue, t) for t in (str, list, dict))
+    if recurse and any(mimetype.startswith(tm) for tm in _split_mimes):
         dd = diff(avalue, bvalue)
         if dd:
             diffbuilder.patch(key, dd)
